@@ -26,6 +26,7 @@ CPP_TYPES = {
     "OpaqueCallback_Pair": "OpaqueCallback<Pair>",
     "struct CIterator_i32": "CIterator<int32_t>",
     "struct KeyValue": "KeyValue",
+    "struct CTup2_i32__Pair": "CTup2<int32_t, Pair>",
 }
 
 
@@ -261,6 +262,12 @@ def random_cpp(seed, fnptr=False, wrapped=False, layout=False, plain=False, wrap
     import random
     m = emit.random_model(seed, fnptr=fnptr, wrapped=wrapped, plain=plain, wrapped_ctx=wrapped_ctx)
     rng = random.Random(seed ^ 0x5eed)
+    # now and then an argument whose type is a template with two parameters written out in the signature (CTup2<A, B>): the comma inside `<>` is not an argument separator
+    for t in m.traits.values():
+        for meth in t.methods:
+            for ai, (ty, nm) in enumerate(meth.args):
+                if nm and rng.random() < 0.12:
+                    meth.args[ai] = ("struct CTup2_i32__Pair", nm)
     # UserThing and Settings first: later user declarations and functions mention them
     user = [(0, USER_DECLS_CPP[0]), (0, USER_DECLS_CPP[2])]
     user += [(rng.randint(0, 12), u) for u in rng.sample(USER_DECLS_CPP[1:2] + USER_DECLS_CPP[3:], rng.randint(2, len(USER_DECLS_CPP) - 2))]
